@@ -140,6 +140,7 @@ func (c *VirtualTable) Open() (sqlite.VirtualCursor, error) {
 	return &Cursor{
 		common: common,
 		ctx:    c.module.sc.ctx,
+		keyCol: c.common.KeyCol,
 	}, nil
 }
 
@@ -162,6 +163,7 @@ func (c *VirtualTable) Destroy() error {
 type Cursor struct {
 	common *s3db.Cursor
 	ctx    context.Context
+	keyCol int
 }
 
 func (c *Cursor) Next() error {
@@ -169,6 +171,13 @@ func (c *Cursor) Next() error {
 }
 
 func (c *Cursor) Column(ctx *sqlite.VirtualTableContext, i int) error {
+	if i != c.keyCol && ctx.NoChange() {
+		// Fetched only to be handed back by an UPDATE that does not assign
+		// this column: leave it unset, so that Update() sees it as unchanged
+		// and does not re-assign it at the UPDATE's write time. The key is
+		// always returned; it identifies the row to Update().
+		return nil
+	}
 	v, err := c.common.Column(i)
 	if err != nil {
 		return toSqlite(err)
